@@ -17,17 +17,20 @@ thread_local! {
 /// Element with a heap allocation of its own (a leak or double free is visible to Miri) whose
 /// decoder is scripted by one input byte: 0 construct, 1 malformed, 2 panic.
 #[derive(Debug, PartialEq, Eq, PartialOrd, Ord)]
-pub struct Tr {
+pub struct TrP<const FIXED: bool> {
 	id: u32,
 	heap: Box<u32>,
 }
-impl Drop for Tr {
+pub type Tr = TrP<false>;
+/// the same element, reporting `encoded_fixed_size() == Some(1)`
+pub type TrF = TrP<true>;
+impl<const FIXED: bool> Drop for TrP<FIXED> {
 	fn drop(&mut self) {
 		assert_eq!(*self.heap, self.id ^ 0x5a5a, "element dropped with a corrupted payload");
 		GONE.with(|g| g.set(g.get() + 1));
 	}
 }
-impl Decode for Tr {
+impl<const FIXED: bool> Decode for TrP<FIXED> {
 	fn decode<I: Input>(input: &mut I) -> Result<Self, Error> {
 		match input.read_byte()? {
 			0 => {
@@ -35,21 +38,28 @@ impl Decode for Tr {
 					m.set(m.get() + 1);
 					m.get()
 				});
-				Ok(Tr { id, heap: Box::new(id ^ 0x5a5a) })
+				Ok(TrP { id, heap: Box::new(id ^ 0x5a5a) })
 			},
 			1 => Err("malformed element".into()),
 			_ => panic!("scripted panic in an element decoder"),
 		}
 	}
+	fn encoded_fixed_size() -> Option<usize> {
+		if FIXED {
+			Some(1)
+		} else {
+			None
+		}
+	}
 }
-impl DecodeWithMemTracking for Tr {}
-impl Default for Tr {
+impl<const FIXED: bool> DecodeWithMemTracking for TrP<FIXED> {}
+impl<const FIXED: bool> Default for TrP<FIXED> {
 	fn default() -> Self {
 		let id = MADE.with(|m| {
 			m.set(m.get() + 1);
 			m.get()
 		});
-		Tr { id, heap: Box::new(id ^ 0x5a5a) }
+		TrP { id, heap: Box::new(id ^ 0x5a5a) }
 	}
 }
 
@@ -133,6 +143,9 @@ fn arrays<const N: usize>() {
 	grid!("TransArr<N>", N, &[], |bs: &[u8]| <TransArr<N>>::decode(&mut &bs[..]));
 	grid!("Box<TransArr<N>>", N, &[], |bs: &[u8]| <Box<TransArr<N>>>::decode(&mut &bs[..]));
 	grid!("[Box<Tr>; N]", N, &[], |bs: &[u8]| <[Box<Tr>; N]>::decode(&mut &bs[..]));
+	grid!("[TrF; N] (fixed-size elements)", N, &[], |bs: &[u8]| <[TrF; N]>::decode(&mut &bs[..]));
+	grid!("Box<[[TrF; 2]; N]>", 2 * N, &[], |bs: &[u8]| <Box<[[TrF; 2]; N]>>::decode(&mut &bs[..]));
+	grid!("Arc<[TrF; N]>", N, &[], |bs: &[u8]| <Arc<[TrF; N]>>::decode(&mut &bs[..]));
 	grid!("[[Tr; 2]; N]", 2 * N, &[], |bs: &[u8]| <[[Tr; 2]; N]>::decode(&mut &bs[..]));
 	grid!("Box<[Rc<Tr>; N]>", N, &[], |bs: &[u8]| <Box<[Rc<Tr>; N]>>::decode(&mut &bs[..]));
 	// a memory limit hit at every box of an array of boxes; a depth limit at the holders
@@ -239,6 +252,23 @@ fn main() {
 		}
 		<[TransWithMarker; 2]>::decode(&mut &v[..])
 	});
+	// the zero-sized field AFTER the payload is the one that fails: the payload must be released
+	for (label, bytes) in [("bad marker", vec![0u8, 7]), ("missing marker", vec![0u8])] {
+		let b1 = bytes.clone();
+		observe(&format!("TransWithMarker {}", label), move || TransWithMarker::decode(&mut &b1[..]));
+		let b2 = bytes.clone();
+		observe(&format!("Box<TransWithMarker> {}", label), move || <Box<TransWithMarker>>::decode(&mut &b2[..]));
+		let b3 = bytes.clone();
+		observe(&format!("Rc<TransWithMarker> {}", label), move || <Rc<TransWithMarker>>::decode(&mut &b3[..]));
+		let mut b4 = vec![0u8, 9];
+		b4.extend_from_slice(&bytes);
+		let b5 = b4.clone();
+		observe(&format!("[TransWithMarker; 2] second {}", label), move || <[TransWithMarker; 2]>::decode(&mut &b4[..]));
+		let mut b6 = vec![2u8 << 2];
+		b6.extend_from_slice(&b5);
+		observe(&format!("Vec<TransWithMarker> second {}", label), move || <Vec<TransWithMarker>>::decode(&mut &b6[..]));
+		unsafe { CASES += 5 };
+	}
 	// zero-sized payloads behind holders
 	observe("Box<()>", || <Box<()>>::decode(&mut &[][..]));
 	observe("Vec<Box<()>>", || <Vec<Box<()>>>::decode(&mut &[3 << 2][..]));
